@@ -168,6 +168,18 @@ def impl_compile(text):
     return comp, ast
 
 
+def stray_character_cases(ctx):
+    """EVERY character below U+0300 (and a few others: BOM, zero-width space, line / paragraph separator, replacement character, a lone astral one) after a complete
+    definition, before it and inside it — alone, as a run, after white space: whatever the recogniser of the documented grammar refuses must be refused"""
+    base = 'def e { splitters: u return "x" weighted 1 }'
+    out = []
+    chars = [chr(c) for c in range(0x300)] + ["\ufeff", "\u200b", "\u2028", "\u2029", "\ufffd", "\U0001f600", "\u037e", "\uff5d", "\u2215"]
+    for ch in chars:
+        for text in (base + ch, base + " " + ch * 3, base + "\n" + ch, base + ch + "\n", ch + base, base[:-1] + ch + "}", base.replace("return", "return" + ch, 1)):
+            out.append(("stray-character U+%04X" % ord(ch), text))
+    return out
+
+
 def run_stream(ctx, cases, with_model=True):
     models = [None] * len(cases)
     if with_model and ctx.driver_ok:
@@ -213,6 +225,7 @@ def run(ctx):
                          "independent recogniser of the documented grammar; every mutant counts as non-trivial")
     ctx.extra["table_obligations"] = 3
     run_stream(ctx, sized_cases(ctx), with_model=False)
+    run_stream(ctx, stray_character_cases(ctx), with_model=False)
     run_stream(ctx, [("near-miss", t) for t in NEAR_MISSES] + glue_cases(ctx, max(300, n // 8)) + make_cases(ctx, n))
 
 
